@@ -26,8 +26,15 @@ BUDGET = {"quick": (1500, 2), "thorough": (20000, 16)}
 
 KEY_ALPHABET = "abAB01 _éß"
 SEP_ALPHABET = "./:|-"
+# a key may hold any character that is not part of the separator in use: other punctuation ("v1.2" under "/"),
+# a backslash (also as the last character of an inner name), regex metacharacters
+PUNCT = "./:|-\\*+()[$^"
 
-_keys = st.text(alphabet=KEY_ALPHABET, min_size=0, max_size=3)
+
+def _keys_for(sep):
+    alphabet = KEY_ALPHABET + "".join(ch for ch in PUNCT if ch not in sep)
+    return st.one_of(st.text(alphabet=KEY_ALPHABET, min_size=0, max_size=3), st.text(alphabet=alphabet, min_size=0, max_size=3),
+                     st.text(alphabet=alphabet, min_size=1, max_size=4))
 _payload = st.one_of(
     st.integers(-3, 3), st.text(alphabet="xy.", max_size=3), st.none(),
     st.lists(st.integers(0, 2), max_size=2), st.just({"$schema": "int"}), st.just(...),
@@ -36,11 +43,11 @@ _payload = st.one_of(
 _leaf = st.tuples(st.just("l"), _payload, st.booleans()).map(list)
 
 
-def _node(depth):
+def _node(depth, sep=SEP_ALPHABET):
     if depth == 0:
         return _leaf
-    child = st.one_of(_leaf, st.deferred(lambda: _node(depth - 1)))
-    base = st.dictionaries(_keys, child, min_size=1, max_size=5).map(
+    child = st.one_of(_leaf, st.deferred(lambda: _node(depth - 1, sep)))
+    base = st.dictionaries(_keys_for(sep), child, min_size=1, max_size=5).map(
         lambda d: ["d", [[k, v] for k, v in d.items()]])
 
     @st.composite
@@ -58,13 +65,16 @@ def _node(depth):
 
 
 def strategy(tier):
-    tree = st.integers(1, 4).flatmap(_node).filter(lambda n: n[0] == "d")
     sep = st.text(alphabet=SEP_ALPHABET, min_size=1, max_size=3)
-    return st.fixed_dictionaries({
-        "tree": tree, "sep": sep,
-        "order": st.lists(st.integers(0, 1000), min_size=6, max_size=40),
-        "relaxed": st.booleans(),
-    })
+
+    def with_sep(sp):
+        tree = st.integers(1, 4).flatmap(lambda d: _node(d, sp)).filter(lambda n: n[0] == "d")
+        return st.fixed_dictionaries({
+            "tree": tree, "sep": st.just(sp),
+            "order": st.lists(st.integers(0, 1000), min_size=6, max_size=40),
+            "relaxed": st.booleans(),
+        })
+    return sep.flatmap(with_sep)
 
 
 def _payload_obj(p):
@@ -175,8 +185,9 @@ def check(case, ctx):
     nested_in = _nested(tree, optional)
     if case["relaxed"]:
         nested_in[...] = ...
+    dotted = any("." in k for p, _, _ in leaves for k in p)      # not separator-free for the default separator
     try:
-        got2 = rollout(nested_in) if sep != "." else rollout(nested_in, separator=sep)
+        got2 = rollout(nested_in) if (sep != "." and not dotted) else rollout(nested_in, separator=sep)
         got3 = rollout(nested_in, separator=sep)
     except Exception as e:  # noqa
         raise Violation("identity-raises", f"rollout raised {e!r} on nested {nested_in!r}")
@@ -209,6 +220,10 @@ def check(case, ctx):
         ctx.label("relaxed")
     if any("" in p for p, _, _ in leaves):
         ctx.label("empty-key")
+    if any(ch in k for p, _, _ in leaves for k in p for ch in PUNCT):
+        ctx.label("punctuation-in-key")
+    if any(k.endswith("\\") for p, _, _ in leaves for k in p[:-1]):
+        ctx.label("inner-name-ends-with-backslash")
     if _has_twin(tree):
         ctx.label("optional-leaf-named-like-sibling")
     if depth >= 2 and split and heads:
